@@ -356,7 +356,22 @@ def run_job(job, work, tier, log):
         if not any(n and re.search(pat, n) for n in names) and \
            not any(o["description"] and re.search(pat, o["description"]) for o in obligations):
             raise ToolProblem("vacuity guard: expected obligation /%s/ missing in %s" % (pat, job.name))
-    if job.loops:
+    loops_expected = job.loops
+    if job.loops and job.extract:
+        # the loop contracts of extracted code are macros put in by extraction rules: when the source no longer has the loop (the
+        # rule fired zero times) there is no loop contract to be dropped
+        inc_all = ""
+        for spec in job.extract:
+            if spec["name"] not in job.enforce:
+                continue
+            try:
+                inc_all += open(os.path.join(jw, spec["name"] + ".inc"), encoding="utf-8", errors="replace").read()
+            except OSError:
+                pass
+        if inc_all and not re.search(r"\b[A-Z][A-Z0-9_]*_CONTRACT\b", inc_all):
+            loops_expected = False
+            info["note_no_loop_in_source"] = True
+    if loops_expected:
         if not any("loop_invariant_step" in (n or "") or "invariant" in (o["description"] or "")
                    or "wrapped_for_contract_checking" in (n or "")
                    for n, o in zip(names, obligations)):
